@@ -860,6 +860,24 @@ Theorem C15_refl3_is_refl : forall ext rfiles rt fuel ls e last e' tr st,
   refl3 ext rfiles fuel ls e rt last = Some (e', rt, tr, st).
 Proof. exact refl3_refl. Qed.
 
+(** 3n. (round 9e) The run_script-level corollary for and-or lines, and: on lines that are single pipelines
+    (in the text and in every body) the and-or reference of 3l IS the flag-state reference of 3g. *)
+Theorem C15_sete_andor_script : forall ext file_text n fuel path text defs text_new rt lines w e' tr st,
+  file_text path = Some text -> function_table text = (defs, text_new) ->
+  tab_okw (set_funcs defs (s_funcs w)) rt ->
+  flat_parsed text_new lines -> forallb wf_line lines = true ->
+  alines (rpipe ext rt fuel) lines (Some (s_eoe w, [])) 0%Z = (Some (e', tr), st) ->
+  run_script ext file_text n (S fuel) w path =
+    (mk_shs (s_eoe w) (set_funcs defs (s_funcs w)) (s_log w ++ tr), st).
+Proof. exact andor_trace_script. Qed.
+
+Theorem C15_alines_is_refl : forall ext rt,
+  (forall name body, get_body name rt = Some body -> forallb single_pipe body = true) ->
+  forall fuel ls e last e' tr st, forallb single_pipe ls = true ->
+  refl ext rt fuel ls e last = Some (e', tr, st) ->
+  forall tr0, alines (rpipe ext rt fuel) ls (Some (e, tr0)) last = (Some (e', (tr0 ++ tr)%list), st).
+Proof. exact alines_refl. Qed.
+
 (** The property, in full, and its refutation on the faithful model (what is left: a token
     holding a newline is not expanded -- first clause, stated for ALL tokens). *)
 Definition C15_full : Prop :=
@@ -936,6 +954,8 @@ Print Assumptions C15_sete_rest_of_body.
 Print Assumptions C15_sete_calls_trace.
 Print Assumptions C15_sete_calls_script.
 Print Assumptions C15_first_failure.
+Print Assumptions C15_sete_andor_script.
+Print Assumptions C15_alines_is_refl.
 Print Assumptions C15_refl3_is_refl.
 Print Assumptions C15_sete_andor_trace.
 Print Assumptions C15_sete_andor_trace_nonvacuous.
